@@ -12,7 +12,9 @@ Per-property plans live in bin/plans.py; this file is the generic machinery:
 import json, os, re, subprocess, sys, time, glob, shutil, concurrent.futures, hashlib
 
 VERIF = os.path.dirname(os.path.dirname(os.path.abspath(__file__)))
-HARNESS = os.path.join(VERIF, "harness")
+# VERIF_HARNESS_DIR: alternative copy of the harness crate (whose Cargo.toml points at a scratch worktree of
+# /repo) for mutation experiments that must not touch /repo itself; registered commands never set it
+HARNESS = os.environ.get("VERIF_HARNESS_DIR") or os.path.join(VERIF, "harness")
 QXV = os.path.join(HARNESS, "target", "debug", "qxv")
 QUIZX_BIN = os.path.join(HARNESS, "target", "debug", "quizx")
 MC = os.path.join(VERIF, "mc")
